@@ -32,6 +32,8 @@ func init() {
 			{ID: "R06i", Floor: 2, Doc: "every section written is indexed: from the success outcome of the section write, neither the next section write nor a success return is reachable without passing InsertNoReplace (= R12g)", Run: ruleR12g},
 			{ID: "R06k", Floor: 2, Doc: "who may resize the file: Truncate is called only by Resume (dropping a stale index) and ExtractV1File (its own destination); writers never extend the file ahead of the bytes they write — a pre-extended, zero-filled tail makes a torn section look complete to the rescan's last-byte probe", Run: ruleR06k},
 			{ID: "R06l", Floor: 1, Doc: "the rescan ends only where the payload ends: the code after the rescan loop is reached only through `err == io.EOF` of the length read or the zero-length-as-EOF option; any other way out leaves acknowledged sections unindexed and lets the next put overwrite them", Run: ruleR06l},
+			{ID: "R06m", Floor: 1, Doc: "in CARv2 mode Resume blanks the whole header before it rescans, on every path: the rescan is not reachable without the all-zero header write (stale DataSize/IndexOffset bytes left in the slot complete a later torn header)", Run: ruleR06m},
+			{ID: "R06n", Floor: 4, Doc: "once a finalizer has run the store takes no more puts, also when the finalize failed: a section appended after a partly written header or index lies where Resume truncates or rescans (= R04c)", Run: ruleR04c},
 			{ID: "R06h", Floor: 2, Doc: "who may write the v2 header slot of a read-write session's file: store.Finalize writes the final header (after the index, R06b); everywhere else in the writing packages only the all-zero header may be written (a non-final, non-zero header on disk makes a later torn Finalize header look complete to Resume)", Run: ruleR06h},
 			{ID: "R06g", Floor: 1, Doc: "the file is truncated by the header on file only when that header is complete: IndexOffset (the last field Finalize writes) >= DataOffset + DataSize", Run: ruleR06g},
 			{ID: "R06f", Floor: 1, Doc: "every section already in the file is re-indexed on resume (= R12c): acknowledged blocks stay retrievable", Run: ruleR12c},
@@ -57,6 +59,9 @@ func init() {
 			{ID: "R12h", Floor: 1, Doc: "Finalize writes header then index, the shape Resume can recover from at every cut (= R06b)", Run: ruleR06b},
 			{ID: "R12j", Floor: 2, Doc: "a resumed session's Finalize always rewrites index and header in CARv2 mode (= R05l)", Run: ruleR05l},
 			{ID: "R12k", Floor: 1 + 2 + 2, Doc: "the header a resumed session finalizes with is built from the options only (padding applied once) (= R05b)", Run: ruleR05b},
+			{ID: "R12l", Floor: 2, Doc: "the payload header a new session writes lists the caller's roots as given (no filtering, no rebuilding): Resume compares the header on file with the roots the caller passes again, so a writer that edits the list makes its own file unresumable", Run: ruleR12l},
+			{ID: "R12m", Floor: 2, Doc: "only Resume resizes a session's file: a Discard or Close that trims the file changes what the next Resume finds (= R06k)", Run: ruleR06k},
+			{ID: "R12n", Floor: 6, Doc: "the index a resumed session finalizes is byte-identical to the one an uninterrupted session writes: buckets are written in ascending width order, not map order (= R11b)", Run: ruleR11b},
 		},
 	})
 	register(PropertyDef{
@@ -75,10 +80,12 @@ func init() {
 			{ID: "R16g", Floor: 2, Doc: "a deferred function assigns the enclosing function's named error result only where that result is still nil (or when wrapping it): the primary error — a failed Finalize, a failed write — is never replaced by the outcome of a cleanup", Run: ruleR16g},
 			{ID: "R16h", Floor: 10, Doc: "no NEW dropped error: a call whose error result is discarded (expression statement, or assigned to _) must be one of the sites of the pinned tree (table droppedErrorBaseline, keyed by enclosing function and callee); deferred calls and fmt printing are not counted", Run: ruleR16h},
 			{ID: "R16j", Floor: 2, Doc: "writer adapters keep the io.Writer contract: a Write/WriteAt method of the repository returns a nil error only together with the full count — the wrapped call's own (n, err) pair, or len(p); an adapter that reports success for a partial write makes Put index a section that is not on disk", Run: ruleR16j},
+			{ID: "R16l", Floor: 1, Doc: "an error kept in the named result is not overwritten: once a call's error was assigned to the function's named error result, a later assignment to that result happens only where it is still nil (or wraps it) — otherwise the first failure (a failed Finalize) is replaced by the outcome of a later step (a successful Close)", Run: ruleR16l},
 			{ID: "R16f", Floor: 1, Doc: "the deferred writer remembers its CAR writer only when constructing it (header write included) succeeded", Run: ruleR16f},
 			{ID: "R16d", Floor: 2, Doc: "position bookkeeping adds exactly the reported byte count", Run: ruleR16d},
 			{ID: "R16i", Floor: 2, Doc: "a finalize that did not write index and header does not report success (= R05l)", Run: ruleR05l},
 			{ID: "R16k", Floor: 4, Doc: "the deferred writer builds its CAR writer over the caller's stream or a freshly opened, truncated file (= R05g)", Run: ruleR20b},
+			{ID: "R16m", Floor: 1, Doc: "the deferred writer reports a put as stored only when the underlying writer did (= R20f)", Run: ruleR20f},
 		},
 	})
 }
@@ -1323,21 +1330,34 @@ func ruleR16g(c *Ctx, r *Report) {
 			if !ok {
 				return
 			}
-			mc, ok := d.Call.Value.(*ssa.MakeClosure)
-			if !ok {
+			// the deferred function: a closure (the result cell is a free variable) or a function
+			// called with the address of the result (`defer closeKeeping(f, &err)`)
+			var g *ssa.Function
+			var handles []ssa.Value
+			errPtr := func(t types.Type) bool {
+				pt, ok := t.Underlying().(*types.Pointer)
+				return ok && types.Identical(pt.Elem(), types.Universe.Lookup("error").Type())
+			}
+			switch x := d.Call.Value.(type) {
+			case *ssa.MakeClosure:
+				g = x.Fn.(*ssa.Function)
+				for i, fv := range g.FreeVars {
+					if cell, _ := x.Bindings[i].(*ssa.Alloc); errPtr(fv.Type()) && cell != nil && isNamedResultCell(fn, cell) {
+						handles = append(handles, fv)
+					}
+				}
+			case *ssa.Function:
+				g = x
+			}
+			if g == nil || g.Blocks == nil || g.Pkg == nil || !isRepoPkg(g.Pkg.Pkg.Path()) {
 				return
 			}
-			g := mc.Fn.(*ssa.Function)
-			for i, fv := range g.FreeVars {
-				pt, ok := fv.Type().Underlying().(*types.Pointer)
-				if !ok || !types.Identical(pt.Elem(), types.Universe.Lookup("error").Type()) {
-					continue
+			for j, a := range d.Call.Args {
+				if cell, _ := a.(*ssa.Alloc); cell != nil && j < len(g.Params) && errPtr(g.Params[j].Type()) && isNamedResultCell(fn, cell) {
+					handles = append(handles, g.Params[j])
 				}
-				// the cell must be a named result of fn
-				cell, _ := mc.Bindings[i].(*ssa.Alloc)
-				if cell == nil || !isNamedResultCell(fn, cell) {
-					continue
-				}
+			}
+			for _, fv := range handles {
 				isErr := func(v ssa.Value) bool {
 					u, ok := v.(*ssa.UnOp)
 					return ok && u.Op == token.MUL && u.X == ssa.Value(fv)
@@ -1789,4 +1809,160 @@ func errOfCallValue(call ssa.CallInstruction) ssa.Value {
 		return cv
 	}
 	return extractOf(cv, sig.Results().Len()-1)
+}
+
+func ruleR16l(c *Ctx, r *Report) {
+	errT := types.Universe.Lookup("error").Type()
+	for _, fn := range c.RepoFuncs() {
+		if !inLib(fn) || fn.Parent() != nil {
+			continue
+		}
+		for _, loc := range fn.Locals {
+			pt, ok := loc.Type().Underlying().(*types.Pointer)
+			if !ok || !types.Identical(pt.Elem(), errT) || !isNamedResultCell(fn, loc) {
+				continue
+			}
+			var stores []*ssa.Store
+			for _, st := range storesTo(loc) {
+				if l, isLoad := st.Val.(*ssa.UnOp); isLoad && l.Op == token.MUL && l.X == ssa.Value(loc) {
+					continue // the spill copy before rundefers
+				}
+				stores = append(stores, st)
+			}
+			// stores of a call's error (not nil constants)
+			var first []*ssa.Store
+			for _, st := range stores {
+				if cl, _ := callOf(st.Val); cl != nil {
+					first = append(first, st)
+				}
+			}
+			if len(first) == 0 || len(stores) < 2 {
+				continue
+			}
+			key := "named-error-not-overwritten@" + fnKey(fn)
+			isCell := func(v ssa.Value) bool {
+				u, ok := v.(*ssa.UnOp)
+				return ok && u.Op == token.MUL && u.X == ssa.Value(loc)
+			}
+			nilE := condEdges(fn, errNilCond(isCell, true))
+			nonNilE := condEdges(fn, errNilCond(isCell, false))
+			bad := ""
+			for _, s1 := range first {
+				// where can control be while the cell still holds s1's (possibly non-nil) error: cut the
+				// `cell == nil` outcomes and the returns
+				rs := reach(fn, s1.Block(), edgeSet(nilE))
+				for _, s2 := range stores {
+					if s2 == s1 {
+						continue
+					}
+					after := rs[s2.Block()] && (s2.Block() != s1.Block() || instrIndex(s2) > instrIndex(s1))
+					if s2.Block() == s1.Block() && instrIndex(s2) < instrIndex(s1) {
+						after = false
+					}
+					if !after {
+						continue
+					}
+					// a store on the error branch itself (err != nil { err = wrap(err) }) is fine when it derives from the cell
+					wraps := false
+					for v := range flowSources(s2.Val) {
+						if isCell(v) {
+							wraps = true
+						}
+					}
+					if wraps {
+						continue
+					}
+					// tolerated: an assignment directly behind `cell != nil` that returns (handled error)
+					_ = nonNilE
+					bad = fmt.Sprintf("the error assigned to %s at %s can be overwritten at %s while it is still set: the caller sees the later step's outcome, not the failure", loc.Comment, c.Pos(s1.Pos()), c.Pos(s2.Pos()))
+				}
+			}
+			r.Check(bad == "", key, c.Pos(fn.Pos()), "later assignments happen only where the result is still nil", bad)
+		}
+	}
+}
+
+func ruleR06m(c *Ctx, r *Report) {
+	fn, err := c.Func(pkgStore, "", "Resume")
+	if err != nil {
+		r.InfraFail("%v", err)
+		return
+	}
+	key := "header-blanked-before-rescan@" + fnKey(fn)
+	lens := callsToFunc(fn, pkgVarint, "", "ReadUvarint")
+	hw := headerWriteCalls(fn)
+	if len(lens) != 1 || len(hw) == 0 {
+		r.Undec(key, c.Pos(fn.Pos()), "rescan loop or the header write not found")
+		return
+	}
+	// the v1 parameter: the remaining bool after R12e's roles; here: any bool parameter whose true edge skips the header write
+	cut := EdgeSet{}
+	for _, b := range fn.Blocks {
+		for i, sc := range b.Succs {
+			for _, h := range hw {
+				if sc == h.Block() {
+					cut[Edge{From: b, Succ: i}] = true
+				}
+			}
+		}
+	}
+	var v1 *ssa.Parameter
+	for _, p := range fn.Params {
+		if bt, ok := p.Type().Underlying().(*types.Basic); ok && bt.Kind() == types.Bool && strings.Contains(strings.ToLower(p.Name()), "v1") {
+			v1 = p
+		}
+	}
+	if v1 == nil {
+		r.Undec(key, c.Pos(fn.Pos()), "the CARv1-mode parameter was not identified")
+		return
+	}
+	for _, e := range boolParamEdges(fn, v1, true) {
+		cut[e] = true
+	}
+	rs := reach(fn, nil, cut)
+	r.Check(!rs[lens[0].Block()], key, c.Pos(hw[0].Pos()), "in CARv2 mode the rescan is only reached through the zero-header write",
+		"in CARv2 mode the rescan can be reached without the header slot having been zeroed: whatever an earlier, interrupted un-finalize left there (old DataSize, old IndexOffset) stays, and completes a header that a later Finalize tears")
+}
+
+func ruleR12l(c *Ctx, r *Report) {
+	for _, sp := range []fnSpec{{pkgBS, "ReadWrite", "initWithRoots"}, {pkgStorage, "StorageCar", "init"}} {
+		fn, err := c.Func(sp.pkg, sp.recv, sp.name)
+		if err != nil {
+			r.InfraFail("%v", err)
+			continue
+		}
+		key := "roots-as-given@" + fnKey(fn)
+		n, bad := 0, ""
+		eachInstr(fn, func(in ssa.Instruction) {
+			st, ok := in.(*ssa.Store)
+			if !ok {
+				return
+			}
+			fa, ok := st.Addr.(*ssa.FieldAddr)
+			if !ok {
+				return
+			}
+			fv := fieldVar(fa.X.Type(), fa.Field)
+			if fv == nil {
+				return
+			}
+			if fv.Name() == "Roots" && isNamed(derefType(fa.X.Type()), pkgV1, "CarHeader") {
+				n++
+				for _, o := range origins(st.Val, originOpts{}) {
+					if o.Kind == "param" || (o.Kind == "field" && o.Field != nil && o.Field.Name() == "roots") {
+						continue
+					}
+					bad = fmt.Sprintf("the root list written to the payload header at %s is built from %s, not the caller's list as given", c.Pos(st.Pos()), o.Kind)
+				}
+			}
+			if fv.Name() == "roots" && strings.HasPrefix(fv.Pkg().Path(), modV2) {
+				bad = fmt.Sprintf("the store's root list is reassigned at %s while the header is being written", c.Pos(st.Pos()))
+			}
+		})
+		if n == 0 {
+			r.Undec(key, c.Pos(fn.Pos()), "no CarHeader{Roots: ...} construction found")
+			continue
+		}
+		r.Check(bad == "", key, c.Pos(fn.Pos()), "header roots = the caller's roots", bad)
+	}
 }
